@@ -163,6 +163,17 @@ CHECKS = {
         "Completion orders of awaited executions are fully controlled; OS-thread interleavings inside make_it_sync are not explored.",
         "DESIGN.md section 4, C12",
     ),
+    "C03": (
+        "Hypothesis generation of source-module layouts (38 layout families x names/operators/whitespace/context wrappers) executed "
+        "as real modules via linecache; oracle = behavioural differential between the recorded lambda (compiled) and the callable "
+        "object actually passed, on sample arguments; refusal allowed only outside the documented-supported class",
+        "Every generated module performs operator calls with capture-free lambdas carrying unique markers on a recording dataset; "
+        "for every call the lambda recorded in the query is compiled and must behave exactly like the callable object that was "
+        "passed (any neighbour differs on every sample), or the call must raise; layouts constructed inside the documented-"
+        "supported class must not raise.",
+        "Layout families are enumerated by hand from the statement, README and test-suite; notebooks/REPL sources are not modelled.",
+        "DESIGN.md section 4, C03",
+    ),
 }
 
 NOT_YET = "check not built yet in this round (work in progress; see DESIGN.md section 4 for the planned generator/oracle)"
